@@ -1874,11 +1874,14 @@ class SolveUnc(_BaseODE):
             else:
                 a_rb = force[rb]
             if "d" in incrb or "v" in incrb:
-                pvnz = freqw != 0
+                pvnz = (freqw != 0).nonzero()[0]
+                # `rb` is an index vector (not a slice) when the
+                # rigid-body modes are not contiguous:
+                rbnz = np.ix_(np.arange(d.shape[0])[rb], pvnz)
                 if "v" in incrb:
-                    v[rb, pvnz] = (-1j / freqw[pvnz]) * a_rb[:, pvnz]
+                    v[rbnz] = (-1j / freqw[pvnz]) * a_rb[:, pvnz]
                 if "d" in incrb:
-                    d[rb, pvnz] = (-1.0 / freqw2[pvnz]) * a_rb[:, pvnz]
+                    d[rbnz] = (-1.0 / freqw2[pvnz]) * a_rb[:, pvnz]
             if "a" in incrb:
                 a[rb] = a_rb
 
